@@ -14,7 +14,8 @@ structure RelOK (env : Env) (R : St → St → Prop) : Prop where
   refl : ∀ s, R s s
   trans : ∀ {a b c}, R a b → R b c → R a c
   put : ∀ s x, R s (s.put x)
-  ev : ∀ s e, R s (s.ev e)
+  /-- logging an event; `seqDrop` is only ever logged by the unrepaired shared-DO `match` -/
+  ev : ∀ s e, (e = Ev.ghost .seqDrop → env.tbl.quirks.seqRestores = false) → R s (s.ev e)
   leaf : ∀ c pc s, R s (leafNew env c pc s).2.2
   comment : ∀ s, R s (commentNew env s).2
   directive : ∀ s, R s (directiveNew env s).2
@@ -64,9 +65,10 @@ theorem restoreRc_rel (ts : List Tree) (s : St) : R s (restoreRc ts s) := by
   | nil => simp only [restoreRc]; exact h.refl _
   | cons t ts ih => simp only [restoreRc]; exact h.trans (restore_rel h t s) (ih _)
 
-theorem ghostIf_rel (b : Bool) (g : Ghost) (s : St) : R s (ghostIf b g s) := by
+theorem ghostIf_rel (b : Bool) (g : Ghost) (s : St)
+    (hg : g = .seqDrop → env.tbl.quirks.seqRestores = false) : R s (ghostIf b g s) := by
   unfold ghostIf; split
-  · exact h.ev _ _
+  · exact h.ev _ _ (fun e => hg (by injection e))
   · exact h.refl _
 
 theorem leafFresh_rel (c : Cls) (s : St) : R s (leafFresh env c s).2 := by
@@ -148,7 +150,7 @@ theorem doHook_rel {f : F} (hf : FRel R f) (cfg : Cfg) (v : LoopVars) (s : St) :
           · split
             · exact h1
             · exact h.trans h1 (restore_rel h _ _)
-        · exact h.trans h1 (h.ev _ _)
+        · exact h.trans h1 (h.ev _ _ (fun e => by cases e))
   · exact h.refl _
 
 theorem matchedStep_rel (cfg : Cfg) (startT : Option Tree) (sn : Option (Option Name))
@@ -307,7 +309,7 @@ theorem blockTail_rel (cfg : Cfg) (startT : Option Tree) (tn : Option Name) (v :
           split
           · rename_i s4 heq; rw [heq] at hr; exact hr
           · rename_i s4 heq; rw [heq] at hr; exact hr
-        · exact h.ev _ _
+        · exact h.ev _ _ (fun e => by cases e)
 
 theorem blockFinish_rel (cfg : Cfg) (startT : Option Tree) (tn : Option Name) (res : LoopRes)
     (s2 sL : St) (hl : R (enterState tn s2) sL) :
@@ -325,7 +327,7 @@ theorem blockFinish_rel (cfg : Cfg) (startT : Option Tree) (tn : Option Name) (r
         split
         · rename_i s4 heq2; rw [heq2] at hr; exact h.trans hexit hr
         · rename_i s4 heq2; rw [heq2] at hr; exact h.trans hexit hr
-    · exact h.trans hleak (ghostIf_rel h _ _ _)
+    · exact h.trans hleak (ghostIf_rel h _ _ _ (fun e => by cases e))
   · exact hleak
   · split
     · rename_i s3 heq; rw [heq] at hexit; exact hexit
@@ -353,8 +355,9 @@ theorem manyLoop_rel {f : F} (hf : FRel R f) (c : Cls) (k : Nat) (rc : List Tree
     · rename_i s1 heq; rw [heq] at h1; exact h1
     · rename_i t s1 heq; rw [heq] at h1; exact h.trans h1 (ih _ _)
 
-theorem seqNR_rel {f : F} (hf : FRel R f) (q : Quirks) (cs : List Cls) (rc : List Tree)
-    (s : St) : R s (seqNR q f cs rc s).2 := by
+theorem seqNR_rel {f : F} (hf : FRel R f) (q : Quirks)
+    (hqq : q.seqRestores = false → env.tbl.quirks.seqRestores = false) (cs : List Cls)
+    (rc : List Tree) (s : St) : R s (seqNR q f cs rc s).2 := by
   induction cs generalizing rc s with
   | nil => simp only [seqNR]; exact h.refl _
   | cons c cs ih =>
@@ -365,10 +368,14 @@ theorem seqNR_rel {f : F} (hf : FRel R f) (q : Quirks) (cs : List Cls) (rc : Lis
       · rename_i e s1 heq; rw [heq] at h1; exact h1
       · rename_i s1 heq; rw [heq] at h1; exact h.trans h1 (restoreRc_rel h _ _)
       · rename_i t s1 heq; rw [heq] at h1; exact h.trans h1 (ih _ _)
-    · have h1 := hf c s
+    · rename_i hq
+      have hq' : q.seqRestores = false := by simpa using hq
+      have h1 := hf c s
       split
-      · rename_i e s1 heq; rw [heq] at h1; exact h.trans h1 (ghostIf_rel h _ _ _)
-      · rename_i s1 heq; rw [heq] at h1; exact h.trans h1 (ghostIf_rel h _ _ _)
+      · rename_i e s1 heq; rw [heq] at h1
+        exact h.trans h1 (ghostIf_rel h _ _ _ (fun _ => hqq hq'))
+      · rename_i s1 heq; rw [heq] at h1
+        exact h.trans h1 (ghostIf_rel h _ _ _ (fun _ => hqq hq'))
       · rename_i t s1 heq; rw [heq] at h1; exact h.trans h1 (ih _ _)
 
 theorem main0Match_rel {f : F} (hf : FRel R f) (fuel : Nat) (cfg : Cfg) (scope : Name) (s : St) :
@@ -415,18 +422,38 @@ theorem main0Match_rel {f : F} (hf : FRel R f) (fuel : Nat) (cfg : Cfg) (scope :
     obtain ⟨b, s3⟩ := ce
     cases b <;> exact hexit
 
-theorem programLoop_rel {f : F} (hf : FRel R f) (unit : Cls) (fuel k : Nat) (rc : List Tree)
-    (s : St) : R s (programLoop env f unit fuel k rc s).2 := by
+theorem unitStep_rel {f : F} (hf : FRel R f) (fuel : Nat) (unit main0 : Cls) (rc : List Tree)
+    (s : St) : R s (unitStep env f fuel unit main0 rc s).2 := by
+  unfold unitStep
+  have h1 := hf unit s
+  split
+  · rename_i e s1 heq
+    rw [heq] at h1
+    split
+    · have h2 := h.trans h1 (h.trans (h.ev s1 (.ghost .fallback) (fun e => by cases e))
+        (blockMatch_rel h hf fuel (fallbackCfg main0) _))
+      split
+      · rename_i c0 s2 heq2; rw [heq2] at h2; exact h2
+      · rename_i s2 heq2; rw [heq2] at h2
+        exact h.trans h2 (ghostIf_rel h _ _ _ (fun e => by cases e))
+      · rename_i e2 s2 heq2; rw [heq2] at h2
+        exact h.trans h2 (ghostIf_rel h _ _ _ (fun e => by cases e))
+    · exact h1
+  · rename_i o s1 _ heq
+    rw [heq] at h1; exact h1
+
+theorem programLoop_rel {f : F} (hf : FRel R f) (unit main0 : Cls) (fuel k : Nat)
+    (rc : List Tree) (s : St) : R s (programLoop env f unit main0 fuel k rc s).2 := by
   induction k generalizing rc s with
   | zero => simp only [programLoop]; exact h.refl _
   | succ k ih =>
     simp only [programLoop]
-    have h1 := hf unit s
+    have h1 := unitStep_rel h hf fuel unit main0 rc s
     split
-    · rename_i e s1 heq; rw [heq] at h1; exact h1
-    · rename_i o s1 _ heq
+    · rename_i r s1 heq; rw [heq] at h1; exact h1
+    · rename_i rc1 s1 heq
       rw [heq] at h1
-      have h2 := addCID_rel h fuel (pushTree o rc) s1
+      have h2 := addCID_rel h fuel rc1 s1
       split
       · rename_i e s2 heq2; rw [heq2] at h2; exact h.trans h1 h2
       · rename_i rc2 s2 heq2
@@ -445,13 +472,15 @@ theorem programMatch_rel {f : F} (hf : FRel R f) (fuel : Nat) (unit main0 : Cls)
   · rename_i e s1 heq; rw [heq] at h1; exact h1
   · rename_i rc0 s1 heq
     rw [heq] at h1
-    have h2 := programLoop_rel h hf unit fuel fuel rc0 s1
+    have h2 := programLoop_rel h hf unit main0 fuel fuel rc0 s1
     split
     · rename_i rc s2 heq2; rw [heq2] at h2; exact h.trans h1 h2
-    · rename_i rc s2 heq2; rw [heq2] at h2
-      exact h.trans h1 (h.trans h2 (h.trans (h.ev _ _)
-        (h.trans (ghostIf_rel h _ _ _) (blockMatch_rel h hf _ _ _))))
-    · rename_i rc e s2 _ heq2; rw [heq2] at h2; exact h.trans h1 h2
+    · rename_i s2 heq2; rw [heq2] at h2; exact h.trans h1 h2
+    · rename_i rc e s2 heq2; rw [heq2] at h2
+      split
+      · exact h.trans h1 (h.trans h2 (h.trans (h.ev _ _ (fun e => by cases e))
+          (h.trans (ghostIf_rel h _ _ _ (fun e => by cases e)) (blockMatch_rel h hf _ _ _))))
+      · exact h.trans h1 h2
 
 theorem altLoop_rel {g : G} (hg : GRel R g) (ds pc : List Cls) (s : St) :
     R s (altLoop env g ds pc s).2.2 := by
@@ -489,7 +518,7 @@ theorem eval_rel (fuel : Nat) : GRel R (eval env fuel) := by
     · exact altLoop_rel h ih _ _ _
     · exact finish_rel h ih _ _ _ _ _ (blockMatch_rel h hf _ _ _)
     · exact finish_rel h ih _ _ _ _ _ (manyLoop_rel h hf _ _ _ _)
-    · exact finish_rel h ih _ _ _ _ _ (seqNR_rel h hf _ _ _ _)
+    · exact finish_rel h ih _ _ _ _ _ (seqNR_rel h hf _ id _ _ _)
     · exact finish_rel h ih _ _ _ _ _ (main0Match_rel h hf _ _ _ _)
     · exact finish_rel h ih _ _ _ _ _ (programMatch_rel h hf _ _ _ _)
     · exact h.comment _
